@@ -18,6 +18,8 @@ def bf(tok):
         return -math.inf
     if tok.isdigit():
         return struct.unpack("<d", struct.pack("<Q", int(tok)))[0]
+    if tok[:1] == "i" and tok[1:].lstrip("-").isdigit():
+        return float(int(tok[1:]))
     return tok
 
 
